@@ -38,6 +38,11 @@ func Resources(c vw.ClusterSpec) config.ClusterResources {
 		r.BFDProfiles = append(r.BFDProfiles, x.CR())
 	}
 	r.PasswordSecrets = map[string]corev1.Secret{}
+	for _, p := range c.Peers {
+		if crs := p.SecretCRs(); len(crs) > 0 {
+			r.PasswordSecrets[crs[0].Name] = *crs[0] // the one in MetalLB's namespace
+		}
+	}
 	return r
 }
 
